@@ -55,10 +55,46 @@ def array_min(arr, where="min"):
 
 
 def instantiate_mins(i):
-    """lemma instance: every recorded minimum is <= the element at index i"""
+    """lemma instance: every recorded minimum (maximum) is <= (>=) the element at index i"""
     ses = cur()
     for (at, n, m, i0) in ses.ghost.get("mins", []):
         ses.add_fact(z3.Implies(z3.And(T.tz(i) >= 0, T.tz(i) < T.tz(n)), m <= T.treal(at(i))))
+    for (at, n, m, i0) in ses.ghost.get("maxs", []):
+        ses.add_fact(z3.Implies(z3.And(T.tz(i) >= 0, T.tz(i) < T.tz(n)), m >= T.treal(at(i))))
+
+
+def array_max(arr, where="max"):
+    """np.max: attained at some index (argmax skolem); upper-bound instances through instantiate_mins"""
+    if not isinstance(arr, SymArray):
+        if isinstance(arr, (list, tuple)):
+            r = arr[0]
+            for x in arr[1:]:
+                r = T.maxv(r, x)
+            return r
+        return arr
+    arr._check_base()
+    n = arr.length
+    if not T.is_sym(n):
+        if n == 0:
+            T.oblige_safety(where + ":max-of-empty", False)
+        r = arr.at(0)
+        for k in range(1, n):
+            r = T.maxv(r, arr.at(k))
+        return r
+    ses = cur()
+    key = (id(arr), arr.version)
+    memo = ses.ghost.setdefault("max_memo", {})
+    if key in memo:
+        return memo[key][0]
+    T.oblige_safety(where + ":max-of-empty", T.ge(n, 1))
+    m = ses.fresh("amax")
+    i0 = ses.fresh("argmax", "Int")
+    at = arr._snapshot_at()
+    ses.add_fact(z3.And(i0 >= 0, i0 < T.tz(n)))
+    ses.add_fact(m == T.treal(at(i0)))
+    memo[key] = (m, arr)
+    ses.ghost.setdefault("maxs", []).append((at, n, m, i0))
+    return m
 
 
 def array_sum(arr, where="sum"):
@@ -364,6 +400,9 @@ def make_numpy(interp):
     def np_min(x):
         return array_min(x)
 
+    def np_max(x):
+        return array_max(x)
+
     def average(d, weights=None):
         if weights is None:
             return T.div(array_sum(d), d.length)
@@ -414,7 +453,7 @@ def make_numpy(interp):
     table = {
         "zeros": zeros, "zeros_like": zeros_like, "ones": ones, "full_like": full_like, "array": array,
         "where": where, "arange": arange, "linspace": linspace, "append": append, "repeat": repeat,
-        "diag": diag, "einsum": einsum, "min": np_min, "average": average, "spacing": spacing,
+        "diag": diag, "einsum": einsum, "min": np_min, "max": np_max, "amax": np_max, "amin": np_min, "average": average, "spacing": spacing,
         "ndim": ndim, "deg2rad": deg2rad, "square": square, "vstack": vstack, "isnan": isnan, "any": np_any,
         "sqrt": _ew(lambda x: T.sqrt(x, "sqrt"), True, "sqrt"),
         "abs": _ew(T.absv, False, "abs"),
@@ -425,7 +464,6 @@ def make_numpy(interp):
         "maximum": _ew(T.maxv, False, "maximum"),
         "minimum": _ew(T.minv, False, "minimum"),
         "sum": lambda x, axis=None: np_sum(x, axis),
-        "max": lambda x: (_ for _ in ()).throw(EngineError("np.max not modelled")),
     }
     tbl = {k: (v if isinstance(v, I.Builtin) else I.Builtin("np." + k, v)) for k, v in table.items()}
     tbl["linalg"] = linalg
